@@ -128,6 +128,21 @@ theorem combos_no_duplicates (order : List Nat) (kwargs : List (Nat × List Nat)
     obtain ⟨kv, hkv, rfl⟩ := List.mem_map.mp hl
     exact hv kv (mem_of_mem_orderLists order _ kv hkv)
 
+/-- several lists, end to end: no combination is omitted — for every choice `f` of one value from each
+    list-valued argument, the combination carrying exactly those (key, value) pairs (in loop order)
+    is among the results, whatever the loop order -/
+theorem combos_complete (order : List Nat) (kwargs : List (Nat × List Nat))
+    (a b : Nat × List Nat) (rest : List (Nat × List Nat)) (h : loopLists kwargs = a :: b :: rest)
+    (f : Nat → Nat) (hf : ∀ kv ∈ loopLists kwargs, f kv.1 ∈ kv.2) :
+    (orderLists order (loopLists kwargs)).map (fun kv => (kv.1, f kv.1)) ∈ combos order kwargs := by
+  simp only [combos, h]
+  rw [← h]
+  refine List.mem_map.mpr ⟨(orderLists order (loopLists kwargs)).map (fun kv => f kv.1), ?_, ?_⟩
+  · rw [mem_product, List.forall₂_map_left_iff, List.forall₂_map_right_iff, List.forall₂_same]
+    intro kv hkv
+    exact hf kv (mem_of_mem_orderLists order _ kv hkv)
+  · exact List.zip_map'
+
 /-- premises satisfiable: a 2×1×3 call under two loop orders -/
 example : (combos [7, 3] [(3, [10, 11]), (5, [1]), (7, [20, 21, 22])]).length = 6 ∧
     (combos [3] [(3, [10, 11]), (5, [1]), (7, [20, 21, 22])]).length = 6 := by decide
